@@ -178,7 +178,7 @@ fn t_h18abs__mdir_empty_ilst() {
     h18_mdir_ilst_no_known(false)
 }
 #[kani::proof]
-#[kani::unwind(12)]
+#[kani::unwind(24)] // the 19-byte item list is copied by RefW::bytes
 fn t_h18abs__mdir_ilst_unknown_items_only() {
     h18_mdir_ilst_no_known(true)
 }
@@ -288,7 +288,7 @@ fn x_h18one__title_text_2_bytes() {
 /// Item level, without the map: the real IlstItemBox / DataBox decoders on reference bytes, then
 /// the crate's item conversions (what title()/year()/poster()/summary() apply to the item found).
 fn item_of<const L: usize>(dtype: u32, payload: &[u8; L]) -> Option<IlstItemBox> {
-    let mut b = [0u8; 40];
+    let mut b = [0u8; 48]; // 8 item + 10 unknown child + 16 data header + up to 8 payload bytes
     let n = {
         let mut w = RefW::new(&mut b);
         let i = w.begin(b"covr");
